@@ -12,6 +12,9 @@ type PointStorage struct {
 	bttest.Storage
 	// IterPoints: also yield before every row handed to an iteration callback.
 	IterPoints bool
+	// Quiet: no scheduling points at all at the storage calls (only the locks and Sends of the service remain);
+	// for scenarios in which a request touches hundreds of rows under one table lock.
+	Quiet bool
 	// OnCreate, if set, receives the raw (unwrapped) Rows of every table that is created, so that a
 	// harness can pre-populate large fixtures without paying the API path on every execution.
 	OnCreate func(name string, rows bttest.Rows)
@@ -23,10 +26,10 @@ func (p PointStorage) Create(t *btapb.Table) bttest.Rows {
 	if p.OnCreate != nil {
 		p.OnCreate(t.Name, inner)
 	}
-	return &pointRows{Rows: inner, iter: p.IterPoints}
+	return &pointRows{Rows: inner, iter: p.IterPoints, quiet: p.Quiet}
 }
 func (p PointStorage) Open(t *btapb.Table) bttest.Rows {
-	return &pointRows{Rows: p.Storage.Open(t), iter: p.IterPoints}
+	return &pointRows{Rows: p.Storage.Open(t), iter: p.IterPoints, quiet: p.Quiet}
 }
 func (p PointStorage) SetTableMeta(t *btapb.Table) {
 	yield("Storage.SetTableMeta")
@@ -35,7 +38,14 @@ func (p PointStorage) SetTableMeta(t *btapb.Table) {
 
 type pointRows struct {
 	bttest.Rows
-	iter bool
+	iter  bool
+	quiet bool
+}
+
+func (r *pointRows) yield(tag string) {
+	if !r.quiet {
+		yield(tag)
+	}
 }
 
 func (r *pointRows) wrap(it bttest.RowIterator) bttest.RowIterator {
@@ -43,27 +53,27 @@ func (r *pointRows) wrap(it bttest.RowIterator) bttest.RowIterator {
 		return it
 	}
 	return func(row *btpb.Row) bool {
-		yield("Rows.iterate")
+		r.yield("Rows.iterate")
 		return it(row)
 	}
 }
-func (r *pointRows) Ascend(it bttest.RowIterator) { yield("Rows.Ascend"); r.Rows.Ascend(r.wrap(it)) }
+func (r *pointRows) Ascend(it bttest.RowIterator) { r.yield("Rows.Ascend"); r.Rows.Ascend(r.wrap(it)) }
 func (r *pointRows) AscendRange(a, b []byte, it bttest.RowIterator) {
-	yield("Rows.AscendRange")
+	r.yield("Rows.AscendRange")
 	r.Rows.AscendRange(a, b, r.wrap(it))
 }
 func (r *pointRows) AscendLessThan(b []byte, it bttest.RowIterator) {
-	yield("Rows.AscendLessThan")
+	r.yield("Rows.AscendLessThan")
 	r.Rows.AscendLessThan(b, r.wrap(it))
 }
 func (r *pointRows) AscendGreaterOrEqual(a []byte, it bttest.RowIterator) {
-	yield("Rows.AscendGreaterOrEqual")
+	r.yield("Rows.AscendGreaterOrEqual")
 	r.Rows.AscendGreaterOrEqual(a, r.wrap(it))
 }
-func (r *pointRows) Clear()                 { yield("Rows.Clear"); r.Rows.Clear() }
-func (r *pointRows) Delete(k []byte)        { yield("Rows.Delete"); r.Rows.Delete(k) }
-func (r *pointRows) Get(k []byte) *btpb.Row { yield("Rows.Get"); return r.Rows.Get(k) }
+func (r *pointRows) Clear()                 { r.yield("Rows.Clear"); r.Rows.Clear() }
+func (r *pointRows) Delete(k []byte)        { r.yield("Rows.Delete"); r.Rows.Delete(k) }
+func (r *pointRows) Get(k []byte) *btpb.Row { r.yield("Rows.Get"); return r.Rows.Get(k) }
 func (r *pointRows) ReplaceOrInsert(row *btpb.Row) {
-	yield("Rows.ReplaceOrInsert")
+	r.yield("Rows.ReplaceOrInsert")
 	r.Rows.ReplaceOrInsert(row)
 }
